@@ -1632,3 +1632,7 @@ mod tests {
         Ok(())
     }
 }
+
+#[cfg(feature = "verif-hooks")]
+#[path = "verif_record_store.rs"]
+pub mod verif_record_store;
